@@ -159,7 +159,7 @@ def run(ctx, cfg):
                 obl.append((kw is None or kw == {}, where + ' analysed with default options'))
             else:
                 tk = (kw or {}).get('threshold_kwargs') or {}
-                obl.append((isinstance(kw, dict) and kw.get('center_extrema') == opt[0]['center_extrema'], where + ' analysed with the options of that position'))
+                obl.append((isinstance(kw, dict) and kw.get('center_extrema', 'peak') == opt[0].get('center_extrema', 'peak'), where + ' analysed with the options of that position'))
                 obl.append((ctx.eq(tk['amp_fraction_threshold'], opt[1]) if 'amp_fraction_threshold' in tk else False,
                             where + ' analysed with the thresholds of that position'))
     if api == 'group':
